@@ -245,9 +245,18 @@ def run(ctx: Ctx):
                             bad = f"{k}: impl {y} model {float(x)}"; break
                     if bad:
                         break
+            if bad and md is not None and len(md["T"]) != len(res["T"]):
+                # a closing temperature whose distance to an existing row is tol to within float rounding is
+                # inserted by exact arithmetic and dropped by floats (or vice versa): fragile, not a disagreement
+                a, b = [float(x) for x in md["T"]], list(res["T"])
+                extra = [x for x in a if all(abs(x - y) > 1e-9 for y in b)] + [y for y in b if all(abs(x - y) > 1e-9 for x in a)]
+                if extra and all(any(abs(abs(x - y) - TOL) < 1e-9 for y in a + b if y != x) for x in extra):
+                    ctx.fragile_skipped += 1
+                    bad = None
+                    md = None
             if bad:
                 ctx.disagree(c, {k: res[k] for k in ("T", "NP")}, model[i][:300], bad)
-            else:
+            elif md is not None:
                 ctx.traces_validated += 1
             # second layer: on tolerance-clean curves the code-shaped model must equal the tidy specification
             # (running minima towards the pinch) that the C07 theorems characterise
